@@ -23,6 +23,7 @@ ASSUMPTIONS = [
     'array pressure profiles: the hydrostatic clauses are asserted when the levels the code derives from the array are strictly decreasing (the statement quantifies over decreasing levels)',
     'rtol 1e-10 on altitude/gravity/scale height against the pure-python reference',
 ]
+RULE = RULE + ' ' + 'Also: levels 1-8 ulp apart, array profiles read from text files (own column, header rows, unit, top-first with reverse=True), temperatures as an integer array; cases stratified by part.'
 REQUIRED = {'temperatures:integer-array': 0.08, 'array:from-file': 0.008, 'array:from-file,top-first': 0.008, 'levels:ulp-spaced': 0.025, 'part:function': 0.2, 'part:model-simple': 0.2, 'part:model-array': 0.08, 'layers:1': 0.01}
 
 MJUP = 1.2668653e17 / 6.6743e-11
